@@ -602,7 +602,7 @@ class FnCtx:
                 pass
             cur = h.r[key]
             nm = '%s.frame[%s]' % (self.short, keystr(key))
-            if key in h.opaque:
+            if key in h.opaque or h.opaque_any:
                 self.notes.append('frame of region %s not checkable: havocked by an opaque call' % keystr(key))
                 continue
             base = self.entry_state.heap.get(key, h.sorts[key], st.alloc0)
@@ -731,7 +731,7 @@ class FnCtx:
         """blocks of the function no feasible explored path went through"""
         out = []
         for b in self.cfg.blocks:
-            if b['idx'] not in self.covered:
+            if b['idx'] not in self.covered and b.get('comment') != 'recover':
                 lines = [i['pos']['line'] for i in b['instrs'] if i.get('pos')]
                 out.append({'block': b['idx'], 'comment': b.get('comment'), 'line': min(lines) if lines else None})
         return out
